@@ -155,6 +155,17 @@ def run(ctx):
         if ctx.out_of_time(budget):
             break
 
+    # ---- 2b. half-tagged nodes -----------------------------------------------------------------------------------------------------
+    n_half = 40 if ctx.quick else 600
+    ctx.bound("half-tagged: %d cases of 1-30 records over graphs in which ~40%% of the nodes carry BO=-1 with NO>=0 or BO>=0 with NO=-1 "
+              "(not produced by order_gfa; 'scaffold node' is read literally as BO != -1 and NO == 0)" % n_half)
+    for i in range(n_half):
+        n = rng.choice([1, 2, 5, 30])
+        gg, recs = sortlib.make_case2(rng, n, n_chrom=rng.randint(1, 2), untagged_frac=0.1, half_tagged_frac=0.4, tag_mode="cg")
+        check_one(ctx, "half-tagged", gg, recs, list(range(n)), False, False, ctx.dir("c09h"))
+        if ctx.out_of_time(budget + 15):
+            break
+
     # ---- 3. multi-block BGZF (> 64 KiB of records in and out) ------------------------------------------------------------------
     n_big = 1 if ctx.quick else 4
     ctx.bound("multi-block: %d case(s) of 300-500 records padded to > 64 KiB (at least two BGZF blocks in the input and in the output)" % n_big)
